@@ -9,6 +9,7 @@ mod cases;
 mod json;
 mod tess;
 mod clip;
+mod geom;
 
 fn main() {
     let args: Vec<String> = std::env::args().collect();
